@@ -421,7 +421,7 @@ def run(ctx):
                             f.write(line if line.endswith("\n") else line + "\n")
             runs.append(dict(sub="corpus", replay=cf))
         if quick:
-            runs.append(dict(sub="fresh", n=220, nm=21, nm0=30, nb=6, ne=3, nes=1, nel=2, engines="mem"))
+            runs.append(dict(sub="fresh", n=220, nm=21, nm0=30, nb=6, ne=3, nes=1, nel=3, engines="mem"))
         else:
             runs.append(dict(sub="fresh", n=3200, nm=240, nm0=330, nb=90, ne=40, nes=6, nel=6, engines="mem,pebble,rocksdb"))
             runs.append(dict(sub="fresh-pebble-live", n=0, nb=30, ne=15, engines="pebble"))
